@@ -40,7 +40,7 @@ if __name__ == "__main__":
             ctx.soft_fail(str(e))
         BASE[p] = st._viol_keys(ctx)
     jobs = [(p, nid, pf) for nid, pf in patches for p in only]
-    with mp.get_context("fork").Pool(16) as pool:
+    with mp.get_context("fork").Pool(16, maxtasksperchild=25) as pool:
         res = pool.map(one, jobs, chunksize=1)
     out = {}
     for p, nid, status, msg in res:
